@@ -139,6 +139,23 @@ theorem doubleStack_resume_panics_composed :
     (go (conf .white 4 (.friendly (some .doubleStack)) true) dsPanicEvs).b.moves.length = 4 := by
   decide +kernel
 
+/-- bot White, cairn, 4×4: the bot's `a3` is transmitted, then the server sends `c3 d2 c1` in one burst and the clock
+line; thinker 1 (started after `a3`) is cancelled and returns at the guard, thinker 2 asks the rule for ply 4 -/
+def Ex.cairnBurstEvs : List (Compose.Ev Move) :=
+  [.enter 0 Ex.quiet, .leave 0 (place 0 2), Ex.srv ["P", "C3"] (place 2 2), Ex.srv ["P", "D2"] (place 3 1),
+   Ex.srv ["P", "C1"] (place 2 0), Ex.tm, .enter 1 Ex.quiet, .enter 2 Ex.quiet]
+
+open Ex in
+/-- **the cairn form of the open finding `C07-fpa-resume-panic`** (found by `./check C07` of this work package, seeds 2
+and 3; `corpus/C07/compose-fpa-cairn-burst.ops`): the rule has been shown none of the replayed plies, its ply-4 script
+finds "no center square between the cairn stones" and panics on the CURRENT thinker's goroutine, loop `running` -/
+theorem cairn_burst_panics_composed :
+    (go (conf .white 4 (.friendly (some .cairn)) true) cairnBurstEvs).dead =
+      some (.panic "no center square between the cairn stones") ∧
+    (go (conf .white 4 (.friendly (some .cairn)) true) cairnBurstEvs).b.status = .running ∧
+    (go (conf .white 4 (.friendly (some .cairn)) true) cairnBurstEvs).b.moves.length = 4 := by
+  decide +kernel
+
 /-! ## no thinker goroutine panics on the tree as it is (`guard = true`), except through the searcher or the rule's script -/
 
 /-- **the exception, exactly**: the FPA rule's own code (`LegalMove`, `GetMove` of the variant) answers on every view,
